@@ -107,7 +107,9 @@ def reused_base_graph(ctx, case, fine0, kw):
                         f'{type(err).__name__} {str(err)[:60]}')
         return
     ctx.count('reused-base-graph', lib.stable_hash([vcase['s']]), sample=vcase['s'])
-    if sorted(fine0.edges) != sorted(fine.edges) or list(fine0.nodes(data='element')) != list(fine.nodes(data='element')):
+    if (sorted(fine0.edges) != sorted(fine.edges) or list(fine0.nodes(data='element')) != list(fine.nodes(data='element'))) and \
+            not nx.is_isomorphic(fine0, fine, node_match=lambda a, b: a.get('element') == b.get('element') and
+                                 a.get('atomname', '')[:1] == b.get('atomname', '')[:1]):
         ctx.fail(vcase, 'a base graph resolved before gives a different molecule the second time')
         return
     owned = []
